@@ -457,6 +457,20 @@ impl Property for C20 {
         }
         Ok(())
     }
+    /// libFuzzer input: option bits, decoration density and script, then type and value
+    fn fuzz_decode(data: &[u8]) -> Option<(&'static str, Case, bool)> {
+        let mut b = engine::Bytes::new(data);
+        let opts = SerOpts::from_bits(b.u16() as u32);
+        let density = b.pick(&[15u16, 35, 70]);
+        let n = 8 + b.below(24);
+        let script: Vec<u16> = (0..n).map(|_| b.u16()).collect();
+        let ty = ds::ty_from_bytes(&mut b, 4);
+        let val = ds::val_from_bytes(&mut b, &ty);
+        let decor = decorate(&ty, &val, &script, density);
+        let c = Case { ty, val, decor, opts };
+        let nt = nontrivial(&c);
+        Some(("fuzz-decorated", c, nt))
+    }
     fn generate(ctx: &mut Ctx<Self>) {
         let fam = SerOpts::family();
         // (a) every comment on every scalar kind in 4 positions
@@ -546,4 +560,10 @@ impl Property for C20 {
 
 fn main() {
     engine::main::<C20>()
+}
+
+/// entry point of the libFuzzer target `fuzz/fuzz_targets/c20.rs`
+#[allow(dead_code)]
+pub fn fuzz(data: &[u8]) {
+    engine::fuzz_one::<C20>(data)
 }
